@@ -1181,6 +1181,11 @@ func main() {
 		nt := r.N(24, 360)
 		vh.Parallel(nt, 12, func(i int) { tickSequence(r, i) })
 		r.Require("tick_sequence_trials", int64(nt*3/4))
+		ne := r.N(16, 160)
+		vh.Parallel(ne, 8, func(i int) { entryWithoutContent(r, i) })
+		r.Require("entry_without_content_trials", int64(ne*3/4))
+		nn := r.N(16, 400)
+		vh.Parallel(nn, 8, func(i int) { nested(r, i) }) // "exactly the garbage": emptying one repository leaves those below it alone
 	}
 	vh.Parallel(n+ns+nslow+nnest, 16, func(i int) {
 		switch {
